@@ -279,6 +279,13 @@ type vWorld struct {
 	dry     bool
 	onEnter func(w *vWorld, e *vExec)
 	clockFn func(w *vWorld) int64
+	inv     *vClosure
+	log     []string // per-operation observation log
+}
+
+func (w *vWorld) record(s string) {
+	w.log = append(w.log, s)
+	verifObserve(w.name + ":" + s)
 }
 
 func vNewWorld(name string, opts ...Option) *vWorld {
